@@ -17,7 +17,11 @@ vars == <<l, pos, val, hasStream>>
 FieldType(ev) == ev.type.fields[ev.field].type
 AddrOf(ev) == val.vals[ev.field].addr
 
+\* the specification has a value for the structure (the Parse of this history was accepted by Decode); when it was not, the
+\* Parse event already carries the verdict and the events after it cannot be judged
+HasVal == val.k = "struct"
 Clauses(ev) ==
+  IF ev.ev \in {"Deref", "Arith", "Dump"} /\ ~HasVal THEN {"SKIP:after-rejected-parse"} ELSE
   CASE ev.ev = "Parse" ->
          LET r == Decode(ev.type, ev.mode, ev.input, ev.start, << >>, ev.consts) IN
          (IF r.ok /\ ev.obs.status = "ok" /\ ev.obs.v = r.v THEN {} ELSE {"parse"})
